@@ -32,7 +32,7 @@ READY = {
     "OHVerif.Props.C16", "OHVerif.Props.C20", "OHVerif.Props.C03",
     "OHVerif.Props.C12Type", "OHVerif.Props.C14Optic", "OHVerif.Props.C19Build",
     "OHVerif.Props.C10Iso", "OHVerif.Props.C04Lax",
-    "OHVerif.Props.C12Subst", "OHVerif.Props.C13Native", "OHVerif.Props.C19Sem",
+    "OHVerif.Props.C12Subst", "OHVerif.Props.C13Native", "OHVerif.Props.C19Sem", "OHVerif.Props.C14Deriv",
 }
 
 def _mods(*names):
@@ -51,13 +51,13 @@ PROPS = {
     "C06": dict(modules=_mods("OHVerif.Props.C06"), groups=[("ff", 3000)], deps=[("prim", 500)]),
     "C07": dict(modules=_mods("OHVerif.Props.C07", "OHVerif.Lemmas.VecBackend"), groups=[("prim", 3000)], deps=[], release=True),
     "C08": dict(modules=_mods("OHVerif.Props.C08"), groups=[("ic", 3000)], deps=[("ff", 500), ("prim", 500)]),
-    "C09": dict(modules=_mods("OHVerif.Props.C09"), groups=[("lax.quot", 2000), ("lax.edit", 1000)], deps=[("ff", 400)]),
+    "C09": dict(modules=_mods("OHVerif.Props.C09"), groups=[("lax.quot", 3000)], deps=[]),
     "C10": dict(modules=_mods("OHVerif.Props.C10", "OHVerif.Props.C10Iso"), groups=[("lax.cat", 2500), ("lawlax", 1500)], deps=[("oh", 400)]),
     "C11": dict(modules=_mods("OHVerif.Props.C11"), groups=[("lax.edit", 3000), ("lax.cat", 1500)], deps=[],
                 missing=["the JSON clause is decided by correspondence only (serde_json's text printer/parser is outside the model): the model's documented JSON text is compared with serde's output and the Rust round trip is executed"]),
     "C12": dict(modules=_mods("OHVerif.Props.C12", "OHVerif.Props.C12Type", "OHVerif.Props.C12Subst"), groups=[("dynfunctor", 1500), ("functor", 800)], deps=[("oh", 400), ("ff", 300)]),
     "C13": dict(modules=_mods("OHVerif.Props.C13", "OHVerif.Props.C13Native"), groups=[("dynfunctor", 2500)], deps=[("lax.cat", 400)]),
-    "C14": dict(modules=_mods("OHVerif.Props.C14", "OHVerif.Props.C14Optic"), groups=[("optic", 1500)], deps=[("dynfunctor", 300), ("eval", 300)]),
+    "C14": dict(modules=_mods("OHVerif.Props.C14", "OHVerif.Props.C14Optic", "OHVerif.Props.C14Deriv"), groups=[("optic", 1500)], deps=[("dynfunctor", 300), ("eval", 300)]),
     "C15": dict(modules=_mods("OHVerif.Props.C15", "OHVerif.Lemmas.Kahn"), groups=[("graph", 3000)], deps=[("ic", 400), ("prim", 300)]),
     "C16": dict(modules=_mods("OHVerif.Props.C16"), groups=[("eval", 3000)], deps=[("graph", 600)]),
     "C17": dict(modules=_mods("OHVerif.Props.C17"), groups=[("oh", 2000), ("hg", 1500), ("graph", 800)], deps=[("prim", 300)], release=True),
